@@ -160,6 +160,8 @@ class TKA:
                 dec = [(d[1], d[2]) for d in pi.decisions() if d[0] == "variant"]
                 r_ = terms.strip(pi.ret())
                 shape = r_[2].split("::")[-1] if r_[0] == "agg" else canon(r_)
+                if r_[0] == "call" and "from_residual" in r_[1]:
+                    shape = "Err"       # `opt.ok_or_else(..)?`: the error leaves through `?`
                 payload = canon(r_[3][0][1]) if r_[0] == "agg" and r_[3] else ""
                 for subj, names in dec:
                     if subj == "Iterator::next(self.iter)":
